@@ -6,7 +6,10 @@ import ZV.Model.C29
        output `ok <hex>` / `err`; when the timestamp prefix applies, the four timestamp bytes are
        printed as `T` (the harness prints `T` iff they are the low 32 bits of a Unix time it observed
        around the call).
-    `c29 parse <hex>` → `ok <canonical dump>` / `err`   (clientHelloMsg.unmarshal) -/
+    `c29 parse <hex>` → `ok <canonical dump>` / `err`   (clientHelloMsg.unmarshal)
+    `c29 wire <ServerName hex> <fp cache: -|nokey|empty|s:vers:suite:tickethex> <RandomSessionID> <Config options>
+              <force> … <exts>` (rest as in marshal; ext tokens `sni+…` / `ticket+:hex` = Autopopulate)
+       → `ok <hex of the ClientHello in the first handshake record(s)>` / `err` / `panic` -/
 namespace ZV.C29
 open ZV.TlsHello
 
@@ -44,8 +47,47 @@ def showMarshal (cfg : Cfg) (r : Option Bytes) : String :=
     if usesTimestamp cfg then "ok " ++ toHex (b.take 6) ++ "T" ++ toHex (b.drop 10)
     else "ok " ++ toHex b
 
+def parseWExtTok (s : String) : Option WExt :=
+  match s.splitOn ":" with
+  | "sni+" :: ds => (ds.mapM ofHex).map (fun l => { e := .sni l, auto := true })
+  | ["ticket+", h] => (ofHex h).map (fun t => { e := .ticket t, auto := true })
+  | _ => (parseExtTok s).map (fun e => { e := e, auto := false })
+
+def parseWExtToks (s : String) : Option (List WExt) :=
+  if s == "-" then some [] else (s.splitOn ",").mapM parseWExtTok
+
+def parseFpCache (s : String) : Option FpCache :=
+  match s.splitOn ":" with
+  | ["-"] => some .none
+  | ["nokey"] => some .noKey
+  | ["empty"] => some .empty
+  | ["s", v, su, t] =>
+    match v.toNat?, su.toNat?, ofHex t with
+    | some v, some su, some t => some (.hit (UInt16.ofNat v) (UInt16.ofNat su) t)
+    | _, _, _ => none
+  | _ => none
+
+/-- Config options of a `wire` line: of all letters only `C` / `T` (a `Config.ClientSessionCache`, session
+    tickets not disabled by `D`) matter for what is sent; every other option is overwritten by `WriteToConfig`
+    or not consulted on the fingerprint path. -/
+def configCacheOf (copt : String) : Bool :=
+  (copt.toList.contains 'C' || copt.toList.contains 'T') && !copt.toList.contains 'D'
+
 def handle (args : List String) : String :=
   match args with
+  | ["wire", sn, fpc, rsid, copt, force, vers, random, ts, sid, suites, comp, rand, exts] =>
+    match ofHex sn, parseFpCache fpc, rsid.toNat?, parseBool force, vers.toNat?, ofHex random, parseBool ts with
+    | some sn, some fpc, some rsid, some force, some vers, some random, some ts =>
+      match ofHex sid, parseNats suites, ofHex comp, ofHex rand, parseWExtToks exts with
+      | some sid, some suites, some comp, some rand, some wexts =>
+        let cfg : Cfg := { vers := UInt16.ofNat vers, random := random, insertTimestamp := ts, sessionId := sid,
+                           suites := suites.map UInt16.ofNat, comp := comp, exts := wexts.map (·.e) }
+        match wireHello cfg wexts sn fpc rsid (configCacheOf copt) force rand 0 with
+        | .err => "err"
+        | .panic => "panic"
+        | .sent b => showMarshal cfg (some b)
+      | _, _, _, _, _ => "bad-op"
+    | _, _, _, _, _, _, _ => "bad-op"
   | ["marshal", force, vers, random, ts, sid, suites, comp, rand, exts] =>
     match parseBool force, vers.toNat?, ofHex random, parseBool ts, ofHex sid, parseNats suites,
           ofHex comp, ofHex rand, parseExtToks exts with
